@@ -15,8 +15,8 @@ for n in sorted(os.listdir('/verif/seeded')):
         continue
     d = json.load(open(mp))
     st, keys = now.get(n, ('?', []))
-    own = [k for k in keys if k.startswith(d['property'] + '.')]
-    other = sorted({k.split('.')[0] for k in keys if not k.startswith(d['property'] + '.')})
+    own = [k for k in keys if k.startswith((d['property'] + '.', d['property'] + ':'))]
+    other = sorted({re.split(r'[.:]', k)[0] for k in keys if not k.startswith((d['property'] + '.', d['property'] + ':'))})
     d['detection']['now'] = dict(status=st, own_keys=own, other_properties=other)
     json.dump(d, open(mp, 'w'), indent=1)
     kind = 'precise' if any(k.endswith('[violation]') for k in own) else ('fail-closed' if own else 'MISSED')
